@@ -20,7 +20,11 @@ type val struct {
 
 // ---------- the fixed type family of the harness (mirrored by EV.methodsOf / EV.callFn) ----------
 
-type In struct{ Z int }
+// Get: a field of the EMBEDDED struct named like a method of the outer struct S — on S the method (depth 0) wins
+type In struct {
+	Z   int
+	Get int
+}
 
 type S struct {
 	A  int
@@ -149,12 +153,12 @@ func vMap(kvs ...kv) val {
 }
 
 func vIn(z int) val {
-	return val{In{z}, J{"st": "In", "fs": []any{[]any{"Z", true, false, vInt(z).j}}}}
+	return val{In{z, 77}, J{"st": "In", "fs": []any{[]any{"Z", true, false, vInt(z).j}, []any{"Get", true, false, vInt(77).j}}}}
 }
 
 // vS builds an S by value; p may be nil.
 func vS(a int, b string, p *val) val {
-	s := S{A: a, B: b, c: 2, L: []int{1, 2}, M: map[string]any{"x": 1}, In: In{9}}
+	s := S{A: a, B: b, c: 2, L: []int{1, 2}, M: map[string]any{"x": 1}, In: In{9, 77}}
 	var pj any = J{"p": "S", "id": 0, "to": nil}
 	if p != nil {
 		ps := p.g.(*S)
